@@ -525,6 +525,9 @@ impl DocumentInline {
 
     fn is_ref(&self) -> bool {
         match self {
+            DocumentInline::Link(link) if link.link_type != LinkType::Regular => {
+                model::is_wiki_ref_url(&link.target.url)
+            }
             DocumentInline::Link(link) => model::is_ref_url(&link.target.url),
             _ => false,
         }
